@@ -1445,7 +1445,7 @@ class SyncObj(object):
 
             if self.__conf.dynamicMembershipChange:
                 self.__updateClusterConfiguration([node for node in data[3] if node != self.__selfNode])
-            self.__onSetCodeVersion(0)
+            self.__onSetCodeVersion(self.__enabledCodeVersion)
             return data[1][1]
         except:
             logger.exception('failed to load full dump')
